@@ -116,6 +116,20 @@ PROPS = {
                 "non-trivial = an accepted operation",
         "trusted": ["mint-one-token-and-drop-authority and freezing are token-program CPIs and are not executed; open_position's own handlers are covered through validate_tick_range only"],
     },
+    "C10": {
+        "lean_modules": ["WP.Props.C10"],
+        "lean_support": ["WP.Props.C13"],
+        "families": [("hist", 12000, 300000), ("dyn", 10000, 500000)],
+        "history": True,
+        "rule": "hist: pool histories in which half of the swaps go through the REAL account-packaging layer (AccountInfo objects -> SparseSwapTickSequenceBuilder::new/try_build -> swap) with a random "
+                "packaging: stored encoding or re-encoded fixed<->dynamic, empty system-owned accounts at the PDA for arrays without initialized ticks, a required array missing, duplicates, extra arrays "
+                "ahead / behind, unrelated empty accounts, an array of another pool, any order, static + supplemental lists; arrays fixed / dynamic / alternating per history; oracles: (1) reference traversal "
+                "over the abstract tick set from snapshots (liquidity = every initialized tick in the path applied once; only those ticks' outside values flipped; tick set unchanged) and order / multiplicity "
+                "from the step trace, (2) the same swap with the canonical packaging on a copy of the world gives the same result and state; model correspondence on every op; dyn: next-initialized "
+                "queries on fixed and dynamic arrays; non-trivial = a successful operation",
+        "trusted": ["AccountInfo objects are built by the harness (owner, key, data); the instruction handlers around the builder (remaining-accounts parsing, token transfers) are not executed",
+                    "the whole-loop composition of the step lemmas is an oracle + correspondence, not yet a theorem"],
+    },
     "C12": {
         "lean_modules": ["WP.Props.C12"],
         "lean_support": ["WP.Props.C13"],
